@@ -185,6 +185,9 @@ func (x *Exec) runCommand(argv []Str) (res RunResult) {
 			case goPanic:
 				res.Exit = 2
 				res.Panic = r.msg
+				if len(argv) > 0 {
+					x.c.notes = append(x.c.notes, "goit "+argv[0].show()+": panic: "+r.msg)
+				}
 				x.c.stats.Panics++
 			case procCrash:
 				res.Exit = 137
